@@ -295,8 +295,6 @@ class Angle(AngularPosition):
         self,
         other: AngularPosition | Angle
     ) -> AngularPosition | Angle:
-        super().__add__(other=other)
-
         if isinstance(other, Angle):
             return Angle(
                 value=self.__value + other.to(self.__unit).value,
@@ -304,9 +302,9 @@ class Angle(AngularPosition):
             )
         else:
             return AngularPosition(
-                value=self.__value + other.to(self.__unit).value,
+                value=self.__value,
                 unit=self.__unit
-            )
+            ) + other
 
     def __sub__(
         self,
@@ -1687,8 +1685,6 @@ class TimeInterval(Time):
         self.__unit = unit
 
     def __add__(self, other: Time | TimeInterval) -> Time | TimeInterval:
-        super().__add__(other=other)
-
         if isinstance(other, TimeInterval):
             return TimeInterval(
                 value=self.__value + other.to(self.__unit).value,
@@ -1696,9 +1692,9 @@ class TimeInterval(Time):
             )
         else:
             return Time(
-                value=self.__value + other.to(self.__unit).value,
+                value=self.__value,
                 unit=self.__unit
-            )
+            ) + other
 
     def __sub__(self, other: Time | TimeInterval) -> Time | TimeInterval:
         super().__sub__(other=other)
